@@ -201,6 +201,18 @@ def replay_tassign(cases, F, mon):
                     F.add("shared_write_not_refused_note", c, "write to shared storage performed", "AliasError (or a local copy-on-write)", **info)
                 elif type(e3).__name__ == "AliasError" and not views_equal(b3, table_view(t3)):
                     F.add("refused_changes_nothing", c, table_rows(t3), "table unchanged after AliasError", **info)
+        # ... and when a column that is NOT addressed shares its storage: the write to the others must still succeed (C15)
+        unaddressed = [u for u in range(w) if u not in idx0]
+        if unaddressed:
+            t4 = build()
+            u = unaddressed[0]
+            if len(t4.cols()[u]) and True:
+                partner = t4.cols()[u] << []
+                if partner._underlying is t4.cols()[u]._underlying:
+                    st4, _, e4 = attempt(lambda: form[1](t4))
+                    ex += 1
+                    if st4 != "ok" and type(e4).__name__ == "AliasError":
+                        F.add("spurious_refusal", c, "AliasError although no addressed column shares storage", "accepted", **info)
         for i in range(w):
             col = t.cols()[i]
             old = col_vals(kinds[i], nl[i])
